@@ -131,13 +131,34 @@ pub fn check_case(tape: &[u16], rc: &mut RCase) -> Result<(), Failure> {
     feat.withdrawals = true;
     feat.donation = true;
     feat.max_txs = 3;
-    let case = Gen::new(&mut t, feat).generate();
+    let mut case = Gen::new(&mut t, feat).generate();
+    // one program in twelve spells two parameters of a transaction alike but for the case: the IR knows one
+    // key for both, so either the front end refuses the program or the interface keeps them apart
+    let mut alike: Option<(String, String)> = None;
+    if t.chance(1, 12) {
+        if let Some(tx) = case.prog.txs.iter_mut().find(|tx| tx.params.len() >= 2) {
+            let first = tx.params[0].0.clone();
+            let twin = if first.to_uppercase() != first { first.to_uppercase() } else { first.to_lowercase() };
+            if twin != first && !tx.params.iter().any(|p| p.0 == twin) {
+                tx.params[1].0 = twin.clone();
+                alike = Some((first, twin));
+            }
+        }
+    }
     let (plain, _) = super::render_pair(&case, &mut t);
     let rendered = || json!({"source": plain});
     // only programs the front end accepts are in the domain
     if pipeline::front(&plain, &case.prog.txs[0].name).is_err() {
-        rc.label("does_not_lower(not judged)");
+        rc.label(if alike.is_some() { "parameters_differing_in_case_refused" } else { "does_not_lower(not judged)" });
         return Ok(());
+    }
+    if let Some((a, b)) = &alike {
+        rc.label("parameters_differing_in_case_accepted");
+        return Err(Failure::new(
+            "declared_keys_collide",
+            format!("parameters {} and {} of one transaction are accepted; the IR has one key for both", a, b),
+            rendered(),
+        ));
     }
     let tii_bytes = match run_tx3c(&plain) {
         Ok(b) => b,
